@@ -35,6 +35,15 @@ Python list semantics (every mutator snippet is linearity-preserving under those
 semantics), so `[oa.reverse(), drain(oa)]` is a body whose single violation is the
 mutation.
 
+Bounds (each part enumerated completely, see space()):
+  quick     every body of <= 2 ops over the nine core values (all cross-value pairs), plus
+            every body of <= 2 ops over each derived list na / fa / pa;
+  thorough  every body of <= 2 ops over all twelve values; every 3-op body over each single
+            value; every 3-op body over the core values without list mutators; every 4-op
+            body over {o, b, q, t, s}.
+A prefix on which the model already demands a use-time error for a second use is not
+extended (the rest would be dead code); `leak` ops are canonical (first, ordered).
+
 Where the statement is silent both outcomes are accepted and counted separately:
   * in-place mutation of a BORROWED array (statement only speaks about owned);
   * passing the same owned *classical* array twice (the array type is non-copyable, the
